@@ -43,6 +43,7 @@ def record_ctor_bodies(ctx):
 
 
 def run(ctx):
+    _ownership(ctx)
     _wiring(ctx)
     import metriclib
     ctx.rule('R01.6', 'the histories whose last entries are echoed keep the newest entries (push_back / pop_front)')
@@ -480,3 +481,10 @@ def shared_counter(ctx, R):
                           '%s): ids repeat across threads' % (cur, cur_b.npath.rsplit('::', 1)[-1]), c.ln)
         if not found:
             ctx.fail(R, nb, tname + ':one-shared-id-counter', 'ANCHOR-MISSING: the constructor does not start the voting threads')
+
+
+def _ownership(ctx):
+    """who-may-write rows of rules/ownership.py that concern this property"""
+    import ownership
+    ctx.rule('R01.7', 'who-may-write: state this property depends on is changed only by its owners (rules/ownership.py)')
+    ctx.floor('R01.7', ownership.run(ctx, 'R01.7', 'C01'), 3)
